@@ -94,7 +94,7 @@ Fixpoint steps_tokens (p : nat) (steps : list rstep) : list token :=
   end.
 
 Lemma steps_stop steps : dot_stop (render_steps steps).
-Proof. destruct steps as [|[[q k|k|ds|[|]|a b c0|u us]|s] r]; cbn; auto. Qed.
+Proof. destruct steps as [|[[q k|k|ds|[|]|a b c0|u us]|s] r]; cbn; auto; repeat split; try reflexivity; discriminate. Qed.
 
 Lemma rec_body_bracket s : (match s with SDot _ | SWild true => False | _ => True end) -> rec_body s = render_step s.
 Proof. destruct s as [q k|k|ds|[|]|a b c0|u us]; intros H; try contradiction; reflexivity. Qed.
